@@ -313,6 +313,10 @@ func (s *Store) Add(args ...*Term) *Term {
 	if len(flat) == 0 {
 		return s.Int(c)
 	}
+	if len(flat) == 1 && c.Sign() != 0 && flat[0].Op == OpIte && isConstTree(flat[0], 6) {
+		cc := new(big.Int).Set(c)
+		return s.mapLeaves(flat[0], func(v *big.Int) *big.Int { return new(big.Int).Add(v, cc) })
+	}
 	sort.SliceStable(flat, func(i, j int) bool { return flat[i].id < flat[j].id })
 	if c.Sign() != 0 {
 		flat = append(flat, s.Int(c))
@@ -480,7 +484,66 @@ func (s *Store) Ite(c, a, b *Term) *Term {
 	if c.Op == OpNot {
 		return s.Ite(c.Args[0], b, a)
 	}
+	// pull out summands common to both branches: ite(c, x+p, x+q) = x + ite(c, p, q)
+	if a.Sort == SInt && (a.Op == OpAdd || b.Op == OpAdd || a.Op == OpVar || b.Op == OpVar) {
+		as, bs := summands(a), summands(b)
+		if len(as) <= 8 && len(bs) <= 8 {
+			var common, ra, rb []*Term
+			usedB := make([]bool, len(bs))
+			for _, x := range as {
+				found := false
+				if x.Op != OpConst {
+					for j, y := range bs {
+						if !usedB[j] && x == y {
+							usedB[j] = true
+							found = true
+							break
+						}
+					}
+				}
+				if found {
+					common = append(common, x)
+				} else {
+					ra = append(ra, x)
+				}
+			}
+			for j, y := range bs {
+				if !usedB[j] {
+					rb = append(rb, y)
+				}
+			}
+			if len(common) > 0 {
+				inner := s.Ite(c, s.Add(ra...), s.Add(rb...))
+				return s.Add(append(common, inner)...)
+			}
+		}
+	}
 	return s.mk(OpIte, a.Sort, []*Term{c, a, b}, nil, false, "")
+}
+
+func summands(t *Term) []*Term {
+	if t.Op == OpAdd {
+		return t.Args
+	}
+	return []*Term{t}
+}
+
+// isConstTree reports whether t is a constant or an ite whose leaves are all constants (bounded depth).
+func isConstTree(t *Term, depth int) bool {
+	if t.Op == OpConst {
+		return true
+	}
+	if t.Op == OpIte && depth > 0 {
+		return isConstTree(t.Args[1], depth-1) && isConstTree(t.Args[2], depth-1)
+	}
+	return false
+}
+
+func (s *Store) mapLeaves(t *Term, f func(*big.Int) *big.Int) *Term {
+	if t.Op == OpConst {
+		return s.Int(f(t.Val))
+	}
+	return s.Ite(t.Args[0], s.mapLeaves(t.Args[1], f), s.mapLeaves(t.Args[2], f))
 }
 
 func (s *Store) cmpFold(a, b *Term, op Op) (*Term, bool) {
@@ -494,6 +557,12 @@ func (s *Store) cmpFold(a, b *Term, op Op) (*Term, bool) {
 		case OpLt:
 			return s.Bool(c < 0), true
 		}
+	}
+	if b.Op == OpConst && a.Op == OpIte && isConstTree(a, 6) {
+		return s.Ite(a.Args[0], s.cmp(a.Args[1], b, op), s.cmp(a.Args[2], b, op)), true
+	}
+	if a.Op == OpConst && b.Op == OpIte && isConstTree(b, 6) {
+		return s.Ite(b.Args[0], s.cmp(a, b.Args[1], op), s.cmp(a, b.Args[2], op)), true
 	}
 	// lift over ite when the other side is constant and ite has a constant branch
 	if b.Op == OpConst && a.Op == OpIte && (a.Args[1].Op == OpConst || a.Args[2].Op == OpConst) {
